@@ -46,7 +46,7 @@ func runC04(p *core.Program, r *core.Report) {
 	r.Rule("C04.shortread", "ReadBytes: negative size rejected; size compared with available input before allocating; count read compared with size; mismatch panics", 3)
 	r.Rule("C04.prefix", "readers of agreeing codec pairs consume everything the writer emitted, so strict prefixes fail in ReadBytes", 100)
 	r.Rule("C04.alloc", "allocations sized by a wide decoded count are preceded by a rejecting bound check", 10)
-	r.Rule("C04.terminate", "loops bounded by a decoded count read from the stream on every path of their body", 60)
+	r.Rule("C04.terminate", "loops bounded by a decoded count read from the stream on every path of their body", 54)
 	r.Rule("C04.unknown-tag", "unknown type codes end in a (recoverable) panic, never in a fabricated object", 4)
 
 	c04ShortRead(p, r)
@@ -446,27 +446,47 @@ func c04AllocAndLoops(p *core.Program, r *core.Report) {
 		}
 		// loops bounded by decoded values
 		ast.Inspect(fi.Decl.Body, func(n ast.Node) bool {
-			loop, ok := n.(*ast.ForStmt)
-			if !ok || loop.Cond == nil {
+			var loopBody *ast.BlockStmt
+			var bound ast.Expr
+			var loop ast.Node
+			switch lp := n.(type) {
+			case *ast.ForStmt:
+				if lp.Cond == nil {
+					return true
+				}
+				be, ok := lp.Cond.(*ast.BinaryExpr)
+				if !ok || (be.Op != token.LSS && be.Op != token.LEQ) {
+					return true
+				}
+				bound = be.Y
+				// i < len(x) with x = make(T, n): bounded by n
+				if call, isCall := ast.Unparen(be.Y).(*ast.CallExpr); isCall && len(call.Args) == 1 {
+					if id, isId := call.Fun.(*ast.Ident); isId && id.Name == "len" {
+						if ml := wire.MadeLenExpr(info, fi.Decl.Body, call.Args[0]); ml != nil {
+							bound = ml
+						}
+					}
+				}
+				loopBody, loop = lp.Body, lp
+			case *ast.RangeStmt:
+				// for i := range x, x = make(T, n) with n decoded
+				ml := wire.MadeLenExpr(info, fi.Decl.Body, lp.X)
+				if ml == nil {
+					return true
+				}
+				bound, loopBody, loop = ml, lp.Body, lp
+			default:
 				return true
 			}
-			be, ok := loop.Cond.(*ast.BinaryExpr)
-			if !ok || (be.Op != token.LSS && be.Op != token.LEQ) {
-				return true
-			}
-			src := tc.source(fi, be.Y, 0)
-			narrow := false
+			src := tc.source(fi, bound, 0)
 			if src == "" {
 				// also narrow counts: any stream read
-				ast.Inspect(be.Y, func(m ast.Node) bool { return true })
-				src = narrowSource(fi, x, be.Y)
-				narrow = src != ""
+				src = narrowSource(fi, x, bound)
 			}
 			if src == "" {
 				return true
 			}
-			_ = narrow
-			ps, over := paths.Enumerate(loop.Body, paths.Config{Info: info, Classify: func(m ast.Node) []paths.Event {
+			ps, over := paths.Enumerate(loopBody, paths.Config{Info: info, Classify: func(m ast.Node) []paths.Event {
 				var out []paths.Event
 				ast.Inspect(m, func(k ast.Node) bool {
 					if c, ok := k.(*ast.CallExpr); ok {
@@ -485,7 +505,7 @@ func c04AllocAndLoops(p *core.Program, r *core.Report) {
 				})
 				return out
 			}})
-			c := fmt.Sprintf("%s loop < %s", fname, stripSpaces(types.ExprString(be.Y)))
+			c := fmt.Sprintf("%s loop < %s", fname, stripSpaces(types.ExprString(bound)))
 			if over {
 				r.Undec("C04.terminate", c, p.Pos(loop.Pos()), "too many paths")
 				return true
